@@ -19,6 +19,7 @@ EXPLANATION = (
     "loop would reject, i.e. when ANY character is not a defined short. NOT decided: that inputs breaking no rule are never rejected, nor "
     "that each runtime rejection names a rule really broken (needs execution over inputs)."
     ' R10.4d (shared with R8.3): what possible_subcommand may answer with.'
+    " R10.A accessor layer (lib/accessors.py): for the is_*_set / get_* accessors this property's rules name — the bool builder sets and unsets one flag on the right edges and the predicate reads that same flag; builder scope (global/local) as in audit/setting_scope.tsv; no two predicates/builders share a flag; setting/unset_setting/global_setting/is_set forward to the right flag word, the flag word is |=bit / &=!bit / &bit!=0 with bit = 1<<discriminant, _propagate_subcommand hands g_settings to the child's settings and g_settings; plain field getters return their field."
 )
 TRUSTED = ["rustc type-check + MIR construction (nightly)", "clapfacts driver", "lib/vset.py abstract interpreter",
            "derived PartialEq on fieldless enums compares discriminants"]
